@@ -27,6 +27,7 @@ class Prop(object):
     quick_cases = 1000
     thorough_cases = 100000
     shrink_budget = 200
+    shrink_data = True
 
     def gen(self, rng, ctx):
         raise NotImplementedError
@@ -89,7 +90,7 @@ class Prop(object):
         def fails(c):
             v = self.judge(c)
             return (not v.skip) and mech in v.mechs()
-        return lang.shrink(case, fails, budget=self.shrink_budget)
+        return lang.shrink(case, fails, budget=self.shrink_budget, shrink_data=self.shrink_data)
 
     def run(self, ctx):
         n = ctx.scale(self.quick_cases, self.thorough_cases)
